@@ -391,10 +391,10 @@ Proof.
   { apply (KND_back (convert_to c k1 k2) (map fst m)); [apply convert_respects_keys| |exact Hnd].
     clear -HF. induction HF as [|kv kv' m m' [[_ [_ [_ Hb]]] _] _ IH]; cbn [map]; constructor; auto. }
   exists (VMap m'). unfold Q. cbn [convert_to].
-  rewrite (conv_map_clean c _ _ _ _ m m' Hclean) with (acc := []).
+  rewrite (conv_map_clean c _ _ _ _ m m' (proj1 Hclean)) with (acc := []).
   2:{ clear -HF. induction HF as [|kv kv' m m' [[Hk _] [He _]] _ IH]; constructor; auto. }
   2:{ exact Hnd'. }
-  rewrite (conv_map_clean c _ _ _ _ m' m Hclean) with (acc := []).
+  rewrite (conv_map_clean c _ _ _ _ m' m (proj1 Hclean)) with (acc := []).
   2:{ clear -HF. induction HF as [|kv kv' m m' [[_ [_ [_ Hk]]] [_ [_ [_ He]]]] _ IH]; constructor; auto. }
   2:{ exact Hnd. }
   cbn [app]. repeat split.
@@ -576,7 +576,7 @@ Proof.
     now rewrite (map_res_err _ _ x Hin (IHe _ _ Hx)).
   - destruct from; try discriminate H. destruct w; try discriminate H.
     apply existsb_exists in H. destruct H as [kv [Hin Hx]]. cbn [convert_to].
-    rewrite (conv_map_err c _ _ _ _ m kv Hclean Hin); [reflexivity|].
+    rewrite (conv_map_err c _ _ _ _ m kv (proj1 Hclean) Hin); [reflexivity|].
     apply orb_true_iff in Hx. destruct Hx as [Hx|Hx]; [left; now apply IHk | right; now apply IHe].
   - destruct from; try discriminate H. destruct w; try discriminate H.
     apply existsb_exists in H. destruct H as [[n t] [Hin Hx]]. cbn [convert_to].
@@ -728,6 +728,151 @@ Proof.
   rewrite H3 in E. inversion E; subst v''. symmetry. exact (agree_leaves t1 t2 v v' H1 A).
 Qed.
 
+
+(* ---------- destinations that are not fresh ---------- *)
+
+Lemma conv_slice_into_eq (cv : dval -> val -> cres val) (f : val -> cres val) z l :
+  (forall x o, In x l -> cv o x = f x) -> forall olds, conv_slice_into cv z olds l = map_res f l.
+Proof.
+  induction l as [|x l IH]; intros H olds; cbn [conv_slice_into map_res]; [reflexivity|].
+  rewrite (H x _ (or_introl eq_refl)). rewrite IH; [reflexivity|]. intros y o Hin. apply H. now right.
+Qed.
+
+Lemma conv_slice_into_nil (cv : dval -> val -> cres val) (f : val -> cres val) z l :
+  (forall x, cv z x = f x) -> conv_slice_into cv z [] l = map_res f l.
+Proof.
+  intro H. induction l as [|x l IH]; cbn [conv_slice_into map_res tl]; [reflexivity|]. now rewrite H, IH.
+Qed.
+
+Lemma conv_fields_into_eq cvi cv ffs ws tfs :
+  Forall (fun nt : string * gotype =>
+            match find_field (fst nt) ffs ws with
+            | Some (ft, fw) => forall o, cvi (snd nt) ft fw o = cv (snd nt) ft fw
+            | None => False
+            end) tfs ->
+  forall olds, conv_fields_into cvi ffs ws tfs olds = conv_fields cv ffs ws tfs.
+Proof.
+  induction 1 as [|[n t] tfs H _ IH]; intros olds; cbn [conv_fields_into conv_fields]; [reflexivity|].
+  cbn [fst snd] in H. destruct (find_field n ffs ws) as [[ft fw]|]; [|contradiction].
+  now rewrite H, IH.
+Qed.
+
+Lemma visible_dzero t : visible (dzero t) = zero t.
+Proof.
+  induction t as [| |k| | |e IHe|k e IHk IHe|fs IHfs] using gotype_ind2; try reflexivity.
+  cbn [dzero visible zero]. f_equal. rewrite map_map.
+  induction IHfs as [|nt l H _ IH]; [reflexivity|]. cbn [map]. now rewrite H, IH.
+Qed.
+
+Lemma conv_fields_into_zero cvi cv ffs ws tfs :
+  Forall (fun nt : string * gotype => forall ft fw, cvi (snd nt) ft fw (dzero (snd nt)) = cv (snd nt) ft fw) tfs ->
+  conv_fields_into cvi ffs ws tfs (map (fun nt : string * gotype => dzero (snd nt)) tfs) = conv_fields cv ffs ws tfs.
+Proof.
+  induction 1 as [|[n t] tfs H _ IH]; cbn [conv_fields_into conv_fields map tl]; [reflexivity|].
+  cbn [snd] in *. rewrite IH. destruct (find_field n ffs ws) as [[ft fw]|]; [now rewrite H | now rewrite visible_dzero].
+Qed.
+
+(* a destination that holds zero values is a fresh destination, whatever the switches *)
+Theorem convert_into_fresh : forall c to from w, convert_into c to from w (dzero to) = convert_to c to from w.
+Proof.
+  intro c. induction to as [| |k| | |te IHe|tk te IHk IHe|tfs IHfs] using gotype_ind2; intros from w; try reflexivity.
+  - cbn [convert_into convert_to dzero]. destruct from; try reflexivity. destruct w; try reflexivity.
+    cbn [List.length]. replace (if Nat.ltb 0 (List.length l) then @nil dval else []) with (@nil dval) by (destruct (Nat.ltb _ _); reflexivity).
+    rewrite (conv_slice_into_nil _ (convert_to c te from) (dzero te) l); [reflexivity|]. intro x. apply IHe.
+  - cbn [convert_into convert_to dzero visible map]. destruct from; try reflexivity. destruct w; try reflexivity.
+    destruct (map_keeps_old_entries c); reflexivity.
+  - cbn [convert_into convert_to dzero]. destruct from; try reflexivity. destruct w; try reflexivity.
+    rewrite (conv_fields_into_zero _ (fun t f x => convert_to c t f x)); [reflexivity|].
+    clear -IHfs. induction IHfs as [|nt l H _ IH]; constructor; [|exact IH]. intros ft fw. apply H.
+Qed.
+
+(* covered to from: every struct field of the target (outside map keys and elements, which are
+   converted into fresh variables) has a source field of the same lower-cased name, recursively.
+   Holds in both directions for compatible types; it is all that independence needs. *)
+Fixpoint coveredb (to from : gotype) {struct to} : bool :=
+  match to, from with
+  | TSlice te, TSlice fe => coveredb te fe
+  | TStruct tfs, TStruct ffs =>
+      forallb (fun nt : string * gotype =>
+                 match field_type (fst nt) ffs with Some ft => coveredb (snd nt) ft | None => false end) tfs
+  | _, _ => true
+  end.
+
+Lemma find_field_of_type n ffs ws ft :
+  fields_typed ffs ws = true -> field_type n ffs = Some ft ->
+  exists fw, find_field n ffs ws = Some (ft, fw) /\ has_typeb ft fw = true.
+Proof.
+  revert ws. induction ffs as [|[n0 t0] ffs IH]; intros [|w ws]; cbn [fields_typed field_type find_field]; try discriminate.
+  rewrite andb_true_iff. intros [H0 Hr]. destruct (name_eqb n n0).
+  - intro E. inversion E; subst. eauto.
+  - intro E. exact (IH ws Hr E).
+Qed.
+
+(* with the switches off, what a conversion leaves in the destination does not depend on what
+   the destination held, provided every target field has a source field *)
+Theorem convert_into_covered : forall c, clean c -> forall to from w old,
+  coveredb to from = true -> has_type from w -> convert_into c to from w old = convert_to c to from w.
+Proof.
+  intros c Hclean.
+  induction to as [| |k| | |te IHe|tk te IHk IHe|tfs IHfs] using gotype_ind2; intros from w old Hc Ht; try reflexivity.
+  - cbn [convert_into convert_to]. destruct from as [| | | | |fe| |]; try reflexivity. destruct w; try reflexivity.
+    unfold has_type in Ht. cbn [has_typeb] in Ht. rewrite forallb_forall in Ht. cbn [coveredb] in Hc.
+    rewrite (conv_slice_into_eq _ (convert_to c te fe) (dzero te) l); [reflexivity|].
+    intros x o Hin. apply IHe; [exact Hc | exact (Ht _ Hin)].
+  - cbn [convert_into convert_to]. destruct from; try reflexivity. destruct w; try reflexivity.
+    now rewrite (proj2 Hclean).
+  - cbn [convert_into convert_to]. destruct from as [| | | | | | |ffs]; try reflexivity. destruct w as [| | | | | |ws]; try reflexivity.
+    unfold has_type in Ht. rewrite has_typeb_struct in Ht. cbn [coveredb] in Hc. rewrite forallb_forall in Hc.
+    rewrite (conv_fields_into_eq _ (fun t f x => convert_to c t f x)); [reflexivity|].
+    rewrite Forall_forall in IHfs |- *. intros [n2 t2] Hin2. cbn [fst snd].
+    specialize (Hc _ Hin2). cbn [fst snd] in Hc.
+    destruct (field_type n2 ffs) as [ft|] eqn:Eft; [|discriminate Hc].
+    destruct (find_field_of_type n2 ffs ws ft Ht Eft) as [fw [Hf Hw]].
+    rewrite Hf. intro o. exact (IHfs _ Hin2 ft fw o Hc Hw).
+Qed.
+
+Lemma compat_covered : forall t1 t2, compat t1 t2 -> coveredb t2 t1 = true /\ coveredb t1 t2 = true.
+Proof.
+  induction t1 as [| |k1| | |e1 IHe|k1 e1 IHk IHe|fs1 IHfs] using gotype_ind2; intros t2 Hc;
+    destruct t2 as [| |k2| | |e2|k2 e2|fs2]; try discriminate Hc; try (split; reflexivity).
+  - cbn [coveredb]. apply IHe. exact Hc.
+  - destruct (compat_struct_facts fs1 fs2 Hc) as [ND1 [ND2 [_ H12]]].
+    unfold compat in Hc. cbn [compatb] in Hc. apply andb_true_iff in Hc. destruct Hc as [_ F21].
+    rewrite forallb_forall in F21. rewrite Forall_forall in IHfs.
+    cbn [coveredb]. split; apply forallb_forall.
+    + intros [n2 t2] Hin2. cbn [fst snd].
+      specialize (F21 _ Hin2). cbn [fst] in F21. apply existsb_exists in F21. destruct F21 as [n1' [Hn1' Hn21']].
+      apply in_map_iff in Hn1'. destruct Hn1' as [[n1'' t1'] [E Hin1']]. cbn [fst] in E. subst n1''.
+      destruct (field_type n2 fs1) as [t1|] eqn:Eft.
+      2:{ exfalso. clear -Eft Hin1' Hn21'. induction fs1 as [|[n0 t0] fs1 IH]; [exact Hin1'|].
+          cbn [field_type] in Eft. destruct (name_eqb n2 n0) eqn:E0; [discriminate|].
+          destruct Hin1' as [E|Hin]; [inversion E; subst; congruence | exact (IH Hin Eft)]. }
+      destruct (field_type_In _ _ _ Eft) as [n1 [Hin1 Hn21]].
+      destruct (H12 n1 t1 Hin1) as [t' [Hf Hct]].
+      rewrite (field_type_unique n1 n2 fs2 t2 ND2 Hin2 (name_eqb_sym _ _ Hn21)) in Hf. inversion Hf; subst t'.
+      exact (proj1 (IHfs _ Hin1 t2 Hct)).
+    + intros [n1 t1] Hin1. cbn [fst snd]. destruct (H12 n1 t1 Hin1) as [t' [Hf Hct]]. rewrite Hf.
+      exact (proj2 (IHfs _ Hin1 t' Hct)).
+Qed.
+
+Theorem convert_onto_indep : forall c, clean c -> forall t1 t2 v old, compat t1 t2 -> has_type t1 v ->
+  convert_onto c t1 t2 v old = convert c t1 t2 v.
+Proof.
+  intros c Hc t1 t2 v old H1 H2.
+  exact (convert_into_covered c Hc t2 t1 v old (proj1 (compat_covered t1 t2 H1)) H2).
+Qed.
+
+(* ... hence the first clause holds whatever the destination held, on the way there and back *)
+Theorem convert_onto_compat : forall c, clean c -> forall t1 t2 v old, compat t1 t2 -> has_type t1 v ->
+  exists v', convert_onto c t1 t2 v old = COk v' /\ has_type t2 v' /\ agree t1 t2 v v' /\
+             forall old', convert_onto c t2 t1 v' old' = COk v.
+Proof.
+  intros c Hc t1 t2 v old H1 H2. destruct (convert_compat c Hc t1 t2 v H1 H2) as [v' [E [T [A B]]]].
+  exists v'. rewrite (convert_onto_indep c Hc t1 t2 v old H1 H2). repeat split; try assumption.
+  intro old'. unfold convert_onto. unfold convert in B. rewrite <- B.
+  exact (convert_into_covered c Hc t1 t2 v' old' (proj2 (compat_covered t1 t2 H1)) T).
+Qed.
+
 (* ---------- witnesses ---------- *)
 Local Open Scope string_scope.
 
@@ -777,3 +922,19 @@ Lemma ex_nonvacuous :
   compat ex_t1 ex_t2 /\ has_type ex_t1 ex_v /\ convert cfg_clean ex_t1 ex_t2 ex_v = COk ex_v' /\
   convert cfg_clean ex_t2 ex_t1 ex_v' = COk ex_v.
 Proof. repeat split; vm_compute; reflexivity. Qed.
+
+(* map[int8]int8{1: 5} into a map[int16]int16 that already holds {7: 7}: with the pinned convertMap
+   the old entry stays, the result has an entry the source does not have, and converting it
+   back (into a fresh variable) gives a map of two entries instead of the source *)
+Definition wit4_old : dval := DMap [(VInt 7, DVal (VInt 7))].
+Lemma refuted_map_keeps_old_entries :
+  compat wit_t1 wit_t2 /\ has_type wit_t1 wit_v /\ has_type wit_t2 (visible wit4_old) /\
+  convert_onto cfg_keeps wit_t1 wit_t2 wit_v wit4_old = COk (VMap [(VInt 7, VInt 7); (VInt 1, VInt 5)]) /\
+  ~ (exists v', convert_onto cfg_keeps wit_t1 wit_t2 wit_v wit4_old = COk v' /\ agree wit_t1 wit_t2 wit_v v') /\
+  convert cfg_keeps wit_t2 wit_t1 (VMap [(VInt 7, VInt 7); (VInt 1, VInt 5)]) <> COk wit_v.
+Proof.
+  split; [reflexivity|]. split; [reflexivity|]. split; [reflexivity|]. split; [vm_compute; reflexivity|]. split.
+  - intros [v' [H A]]. vm_compute in H. inversion H; subst v'. cbn in A.
+    inversion A as [|? ? ? ? _ A']; subst. inversion A'.
+  - vm_compute. discriminate.
+Qed.
